@@ -118,6 +118,11 @@ def step (st : State) (w : List String) : State × String :=
     | some l => (st, "reply=" ++ String.join (l.map boolStr))
     | none => (st, "bad-op")
   | "dchain" :: "rlserve" :: _ => (st, "unmodelled")
+  | ["cfg", "load", labels] =>
+    -- the configuration file is a list: views keep their declaration order, the
+    -- first declared view containing the client answers
+    let n := (labels.splitOn ",").length
+    (st, s!"views={labels} first=1 acl={n}")
   | ["ident", "raw", a, _port] =>
     -- the batched reader hands the chain the datagram's own source: a 16-byte
     -- address counts as IPv4 only in its genuine ::ffff:a.b.c.d form
@@ -150,7 +155,7 @@ def step (st : State) (w : List String) : State × String :=
       let acl := Set.new (if l.isEmpty then openList else l)
       let lo := boolStr (aclNext acl false Fam.v4 0x7f000001)
       let doh := String.join (ps.map fun (f, v) => boolStr (aclNext acl false f v))
-      (st, s!"udp={lo} tcp={lo} doh={doh}")
+      (st, s!"udp={lo} tcp={lo} udpx={lo} doh={doh}")
     | _, _ => (st, "bad-op")
   | ["chain", "run", scs] =>
     match (scs.splitOn ";").mapM parseScript with
